@@ -3,7 +3,10 @@ mod child;
 mod common;
 mod comp;
 mod crash;
+mod cyref;
 mod multi;
+mod qchk;
+mod qry;
 mod rt;
 mod sched;
 mod schk;
@@ -70,6 +73,7 @@ fn main() {
         "C09" => schk::c09(tier),
         "C29" => schk::c29(tier),
         "C35" => schk::c35(tier),
+        "C11" => qchk::c11(tier),
         "C10" => multi::c10(tier),
         "C04" => seq::c04(tier),
         "C05" => seq::c05(tier),
